@@ -210,10 +210,10 @@ def run(tier, seed, replay):
 
                 def buf(D, f_):
                     return [[int(z.real), int(z.imag)] for z in D.as_ndarray().ravel(order="F" if f_ else "C")]
-                lines.append("C01.iadd_dense " + json.dumps({"l": {"rows": shape[0], "cols": shape[1], "fortran": lf, "data": buf(Ld, lf)},
-                                                              "r": {"rows": shape[0], "cols": shape[1], "fortran": rf, "data": buf(Rd, rf)}, "scale": [int(sc.real), int(sc.imag)]}))
+                lines.append("C01.iadd_dense " + json.dumps({"l": {"rows": shape[0], "cols": shape[1], "fortran": bool(Ld.fortran), "data": buf(Ld, bool(Ld.fortran))},
+                                                              "r": {"rows": shape[0], "cols": shape[1], "fortran": bool(Rd.fortran), "data": buf(Rd, bool(Rd.fortran))}, "scale": [int(sc.real), int(sc.imag)]}))
                 res_ = iadd(Ld, Rd, sc)
-                expect.append(("buffer", buf(res_, lf), res_.to_array()))
+                expect.append(("buffer", buf(res_, bool(res_.fortran)), res_.to_array()))
         # matmul_csr_dense_dense into `out`: CSR with unsorted rows, right and out in every combination of memory orders
         mcd = importlib.import_module("qutip.core.data.matmul").matmul_csr_dense_dense
         rgt = pattern(rng, (shape[1], int(rng.integers(1, 4))), "full")
@@ -222,12 +222,27 @@ def run(tier, seed, replay):
             for of_ in (False, True):
                 Rd = _data.Dense(np.array(rgt, order="F" if rf else "C"), copy=False)
                 Od = _data.Dense(np.array(outb, order="F" if of_ else "C"), copy=False)
-                lines.append("C01.matmul_csr_dense " + json.dumps({"a": ja, "b": {"rows": rgt.shape[0], "cols": rgt.shape[1], "fortran": rf, "data": buf(Rd, rf)},
-                                                                    "out": {"rows": outb.shape[0], "cols": outb.shape[1], "fortran": of_, "data": buf(Od, of_)}, "scale": [int(sc.real), int(sc.imag)]}))
+                lines.append("C01.matmul_csr_dense " + json.dumps({"a": ja, "b": {"rows": rgt.shape[0], "cols": rgt.shape[1], "fortran": bool(Rd.fortran), "data": buf(Rd, bool(Rd.fortran))},
+                                                                    "out": {"rows": outb.shape[0], "cols": outb.shape[1], "fortran": bool(Od.fortran), "data": buf(Od, bool(Od.fortran))}, "scale": [int(sc.real), int(sc.imag)]}))
                 with warnings.catch_warnings():
                     warnings.simplefilter("ignore")
                     res_ = mcd(U, Rd, sc, Od)
-                expect.append(("buffer", buf(res_, of_), res_.to_array()))
+                expect.append(("buffer", buf(res_, bool(res_.fortran)), res_.to_array()))
+        # matmul_dia_dense_dense: messy Dia operand, right / out in both memory orders, with and without out, scale 1 and not
+        mdd = importlib.import_module("qutip.core.data.matmul").matmul_dia_dense_dense
+        for rf in (False, True):
+            for of_ in (None, False, True):
+                for sc_ in (1, sc):
+                    Rd = _data.Dense(np.array(rgt, order="F" if rf else "C"), copy=False)
+                    Od = None if of_ is None else _data.Dense(np.array(outb, order="F" if of_ else "C"), copy=False)
+                    req = {"a": dia_json(DL), "b": {"rows": rgt.shape[0], "cols": rgt.shape[1], "fortran": bool(Rd.fortran), "data": buf(Rd, bool(Rd.fortran))},
+                           "out": None if Od is None else {"rows": outb.shape[0], "cols": outb.shape[1], "fortran": bool(Od.fortran), "data": buf(Od, bool(Od.fortran))},
+                           "scale": [int(complex(sc_).real), int(complex(sc_).imag)]}
+                    lines.append("C01.matmul_dia_dense " + json.dumps(req))
+                    with warnings.catch_warnings():
+                        warnings.simplefilter("ignore")
+                        res_ = mdd(DL, Rd, sc_, Od)
+                    expect.append(("buffer", buf(res_, bool(res_.fortran)), res_.to_array()))
         for cj in (False, True):
             lines.append("C01.transpose_dia " + json.dumps({"a": dia_json(DL), "conj": cj}))
             tr_ = _data.adjoint_dia(DL) if cj else _data.transpose_dia(DL)
